@@ -50,7 +50,10 @@ def variant(run):
     v = run.get("proto", "?")
     if run.get("proto") == "Http2":
         v += "/cont%d" % run.get("conts", 0)
-    return v + "/" + run.get("mode", "?")     # listener configuration: fixed | auto | list
+    v += "/" + run.get("mode", "?")     # listener configuration: fixed | auto | list
+    if run.get("transport", "plain") != "plain":
+        v += "/" + run["transport"]       # inspector (peeking wrapper, plain-text client) | tls
+    return v
 
 
 def run(ctx):
@@ -66,7 +69,14 @@ def run(ctx):
     r = vlib.run_tlc(ctx, "wire", "Framing", "Framing_preface.cfg" if q else "Framing_preface_thorough.cfg", workers=1,
                      cases_to=praw, timeout=900)
     ctx.add_tlc(r)
-    for d in ("OffByOne", "DrainHeader", "ConsumePartial", "PrefaceFlagEarly"):
+    # transport under the read buffer: schedules of chunks and expiring read deadlines (Timeout action), model-checked
+    # for the plain socket and for the peeking inspector wrapper; the schedules are played over every transport
+    traw = os.path.join(ctx.tmp, "zones_tmo_raw.jsonl")
+    r = vlib.run_tlc(ctx, "wire", "Framing", "Framing_timeout.cfg" if q else "Framing_timeout_thorough.cfg", workers=1,
+                     cases_to=traw, timeout=900)
+    ctx.add_tlc(r)
+    ctx.add_tlc(vlib.run_tlc(ctx, "wire", "Framing", "Framing_timeout_peek.cfg" if q else "Framing_timeout_peek_thorough.cfg", timeout=900))
+    for d in ("OffByOne", "DrainHeader", "ConsumePartial", "PrefaceFlagEarly", "ShortCountAfterTimeout"):
         if vlib.run_tlc(ctx, "wire", "Framing", "Framing_defect_%s.cfg" % d, expect_ok=False)["ok"]:
             raise vlib.Inconclusive("Framing model does not reject defect %s: invariants vacuous" % d)
     ctx.add_tlc(vlib.run_tlc(ctx, "wire", "Detect", "Detect.cfg"))
@@ -88,11 +98,17 @@ def run(ctx):
         rest = [ln for ln in plines if len(json.loads(ln)["frames"]) > 1]
         plines = keep + rng.sample(rest, min(pcap, len(rest)))
         sampled = True
+    tlines = sorted(set(open(traw).read().splitlines()))
+    tcap = 1500
+    if len(tlines) > tcap:
+        tlines = rng.sample(tlines, tcap)
+        sampled = True
+    tlines = [json.dumps(dict(json.loads(ln), tmo=1)) for ln in tlines]
     zones = os.path.join(ctx.tmp, "zones.jsonl")
     with open(zones, "w") as fh:
-        for ln in small + big + plines:
+        for ln in small + big + plines + tlines:
             fh.write(ln + "\n")
-    ncases = len(small) + len(big) + len(plines)
+    ncases = len(small) + len(big) + len(plines) + len(tlines)
 
     # ---------- 2. real code: record (one driver process per protocol, in parallel)
     binary = vlib.go_build("c07")
@@ -133,7 +149,7 @@ def run(ctx):
                 nruns += 1
                 if e["ev"] == "run" and len(e.get("cuts", [])) > 1:
                     nontrivial += 1
-            elif e["ev"] in ("feed", "select", "match"):
+            elif e["ev"] in ("feed", "pause", "select", "match"):
                 nfeeds += 1
             run_at[i] = cur
         ctx.sample({"part": kind, "trace_head": evs[:4]})
